@@ -18,9 +18,10 @@
    non-nullable (decided by vm_compute on the generated ASTs) and, for DTD,
    that the value group is at least two characters wide and the header
    expression matches exactly a leading byte-order mark. *)
-From Coq Require Import NArith List Bool Arith.
+From Coq Require Import NArith List Bool Arith Lia.
 From CL Require Import Base.Sx Base.Res Base.Str Regex.Rx Model.Entry Model.Parse
-  Model.ParseFormats Proofs.WalkSpec Proofs.C01Final.
+  Generated.RxParser Model.ParseFormats Model.ParseFluent Proofs.WalkSpec Proofs.C01Final
+  Proofs.FluentWalkSpec Proofs.FluentWalkProofs.
 Import ListNotations.
 
 Theorem C01_lossless_properties : forall s : str, lossless (stateless gn_properties) tt s.
@@ -43,6 +44,30 @@ Proof. exact lossless_po. Qed.
         walk_localizable gn tt s = Ok (filter is_localizable es)            *)
 Theorem C01_lossless_dtd : forall s : str, WalkSpec.lossless_dtd (stateless gn_dtd) s.
 Proof. exact C01Final.lossless_dtd. Qed.
+
+(* Fluent: FluentParser.walk over the body fluent.syntax returns.  Partial:
+   [body_ok] (Proofs/FluentWalkSpec.v) is the contract assumed of the library —
+   top-level entries have ordered, non-empty, non-overlapping spans inside the
+   text, a junk entry's content is its slice of the text and keeps a non-blank
+   character after trimming, id/value spans lie inside their entry — and is
+   checked by the harness on every generated input.  Under it:
+     lossless_fluent s body := let es := walk_fluent false s body in
+        length es <= length s /\ concat (map (all_text s) es) = s /\ tiles s 0 es /\
+        Forall spans_inside es /\ walk_fluent true s body = filter is_localizable es *)
+Theorem C01_fluent_partial : forall (s : str) (body : list fentry),
+  body_ok rx_ftl_lead rx_ftl_trail s 0 body ->
+  lossless_fluent rx_ftl_lead rx_ftl_trail s body.
+Proof. exact (walk_fluent_lossless rx_ftl_lead rx_ftl_trail). Qed.
+
+(* the contract is satisfiable: "k = v\n\n" with one message and a blank gap *)
+Example C01_fluent_contract_example :
+  body_ok rx_ftl_lead rx_ftl_trail (map N.of_nat [107; 32; 61; 32; 118; 10; 10]) 0
+          [mkf FMessage (0, 6) (0, 1) (Some (4, 5)) []].
+Proof.
+  unfold body_ok, fentry_ok, span_inside. cbn.
+  repeat split; intros;
+    try (match goal with H : Some _ = Some _ |- _ => inversion H; subst; cbn end); lia.
+Qed.
 
 (* non-vacuity: a concrete parse, evaluated by the kernel *)
 Example C01_example_properties :
